@@ -1,11 +1,12 @@
 import MemVerif.Gen.Arith
 import MemVerif.Gen.Guards
 import MemVerif.Model.Buckets
+import MemVerif.Drv.Stack
 /-!
 Line-protocol driver: reads one operation per line on stdin, runs the executable model, prints the
 model's result in the harness' canonical format. `tools/` diff the two streams.
 -/
-open MemVerif MemVerif.Gen MemVerif.Model
+open MemVerif MemVerif.Gen MemVerif.Model MemVerif.Drv
 
 def b2s (b : Bool) : String := if b then "1" else "0"
 def bv (s : String) : Option (BitVec 64) := s.toNat?.map (BitVec.ofNat 64)
@@ -41,27 +42,51 @@ def arith (fn : String) (args : List String) : Option String :=
   | "bucket_rel_index", [some p, some m, some s] =>
       let pol := if p = 0#64 then Policy.identity else Policy.log2
       some (toString (bucketIndex pol m s - minSizeIndex pol m).toNat)
-  | "fixed_stack_rejects", [some f, some o, some s, some r] => some (b2s (fixedStackRejects f o s r))
+  | "stack_allocation_fits", [some f, some o, some s, some r] => some (b2s (stackAllocationFits f o s r))
   | _, _ => none
 
-def step (line : String) : String :=
-  let toks := (line.trimAscii.toString.splitOn " ").filter (· ≠ "")
-  match toks with
+structure DState where
+  stack : StackSt := {}
+
+/-- one trace line in, the model's line out -/
+def step (ds : DState) (line : String) : DState × String :=
+  let secs := sections line
+  let op := toks (secs.getD 0 "")
+  match op with
   | "arith" :: fn :: rest =>
       let args := rest.takeWhile (· ≠ "=>")
       match arith fn args with
-      | some r => s!"arith {" ".intercalate (fn :: args)} => {r}"
-      | none => s!"bad-op {line}"
-  | [] => ""
-  | _ => s!"bad-op {line}"
+      | some r => (ds, s!"arith {" ".intercalate (fn :: args)} => {r}")
+      | none => (ds, s!"bad-op {line}")
+  | "header" :: rest =>
+      let subj := (hdr rest "subject").getD ""
+      ({ ds with stack := { cfg := parseCfg rest, subject := subj } }, line.trimAscii.toString)
+  | subj :: rest =>
+      let env := parseEnv (secs.getD 1 "")
+      let obsState := secs.getD 4 ""
+      let fin (st : StackSt) (r : String × String × String) : DState × String :=
+        ({ ds with stack := st }, mkLine (secs.getD 0 "") (secs.getD 1 "") r.1 r.2.1 r.2.2)
+      if subj = "stack" then
+        let (st, res, up, sts) := stackStep ds.stack rest env obsState
+        fin st (res, up, sts)
+      else if subj = "iter" then
+        let (st, res, up, sts) := iterStep ds.stack rest env obsState
+        fin st (res, up, sts)
+      else if subj = "static" then
+        let (st, res, up, sts) := staticStep ds.stack rest
+        fin st (res, up, sts)
+      else if subj = "oracle-fail" || subj = "summary" then (ds, line.trimAscii.toString)
+      else (ds, s!"bad-op {line}")
+  | [] => (ds, "")
 
-partial def loop (h : IO.FS.Stream) (out : IO.FS.Stream) : IO Unit := do
+partial def loop (h : IO.FS.Stream) (out : IO.FS.Stream) (ds : DState) : IO Unit := do
   let line ← h.getLine
   if line.isEmpty then return ()
-  out.putStrLn (step line)
-  loop h out
+  let (ds', o) := step ds line
+  out.putStrLn o
+  loop h out ds'
 
 def main : IO Unit := do
   let stdin ← IO.getStdin
   let stdout ← IO.getStdout
-  loop stdin stdout
+  loop stdin stdout {}
